@@ -221,6 +221,29 @@ def _short_job(args):
     return out
 
 
+def _long_job(args):
+    """default parameters on a LONG series (the candle store of a backtest grows without bound): the first 300 values must be what they
+    are on the first 300 candles"""
+    name, n = args
+    fs = dict(indreg.functions())
+    f = fs[name]
+    c = indreg.stems(n)['walk1']
+    c2 = indreg.stems(n, base=50.0)['walk1']
+    out = {'n': 0, 'viols': []}
+    try:
+        full = indreg.call(name, f, c, True, {}, c2)
+        pref = indreg.call(name, f, c[:300], True, {}, c2[:300])
+    except Exception:
+        return out
+    out['n'] = 1
+    d = _compare(name, {}, full, pref, 300, _exempt_tail(name, {}))
+    if d:
+        fn, i, a, b = d[0]
+        out['viols'].append(Violation('not-causal', {'indicator': name}, {'indicator': name, 'variant': 'default', 'params': {}, 'stem': 'walk1', 'cut': 300, 'mode': 'long', 'length': n},
+                                      '%s() field %s index %d: %r on the first 300 candles, %r on all %d' % (name, fn, i, b, a, n)).to_json())
+    return out
+
+
 def run(ctx):
     cov = ctx.coverage
     names = [n for n, f in indreg.functions() if indreg.has(f, 'sequential')]
@@ -267,6 +290,18 @@ def run(ctx):
                 ctx.add(v)
     if ncr:
         crashed.append('%d (indicator, k) pairs with k <= 19 candles crashed natively (kernels without bounds checks on inputs shorter than their window)' % ncr)
+    nlong = 3600 if ctx.quick else 9000
+    for n, (st, r) in zip(names, core.pmap_isolated(_long_job, [(n, nlong) for n in names])):
+        if st != 'ok':
+            crashed.append('%s: %s on %d candles' % (n, r, nlong))
+            continue
+        cov['transitions'] += r['n']
+        ctx.count('prefix-comparisons(long)', r['n'])
+        for v in r['viols']:
+            v = Violation.from_json(v)
+            if v.sigkey() not in sigs:
+                sigs.add(v.sigkey())
+                ctx.add(v)
     depth = 6 if ctx.quick else 8
     tcov = set()
     for n, (st, r) in zip(names, core.pmap_isolated(_tree_job, [([n], depth) for n in names])):
@@ -299,7 +334,9 @@ def run(ctx):
 
 def replay(case, ctx):
     name = case['indicator']
-    if case.get('mode') == 'short':
+    if case.get('mode') == 'long':
+        r = _long_job((name, case['length']))
+    elif case.get('mode') == 'short':
         r = _short_job((name, case['cut']))
     elif case.get('mode') == 'tree':
         r = _tree_job(([name], len(case['word'])))
